@@ -42,6 +42,8 @@ def new_dims(draw, profile, ndims, cnt0=None, cnt1=None, used_names=()):
         c1 = cnt1 if cnt1 is not None else pick(draw, cnt1_choices(c0))
         lo1 = pick(draw, ["0", "0", "1", names[0], "%s+1" % names[0], "K"])
         d1 = Dim(names[1], lo1, c1, pick(draw, steps), pick(draw, [0, 0, 1, 2]))
+        if draw(sint(0, 2)) == 0:
+            d1.cnt_local = "q1"      # count of the second parameter goes through a derived local declared between the two
         dims.append(d1)
     return dims
 
@@ -299,6 +301,8 @@ def build_program(draw, profile):
                 prog.features.add("dependent_range")
             if d.lo.startswith("0-"):
                 prog.features.add("neg_bound")
+            if d.cnt_local:
+                prog.features.add("range_through_derived_local")
         if cls.again:
             prog.features.add("again")
     prog.layout = b.layout
